@@ -326,6 +326,13 @@ func (c WTVarIntSliceWrapper) Read(data []byte, ptr unsafe.Pointer, wt plenccore
 		// Ensure the GC knows the type of this slice.
 		h.Data = unsafe_NewArray(c.EltType, int(count))
 		h.Cap = int(count)
+	} else {
+		// We're going to re-use the backing array. Elements may be pointers
+		// (e.g. []*int), which are read by writing through them: start from
+		// zeros so we never write to whatever the old elements pointed to.
+		for i := 0; i < count; i++ {
+			typedmemclr(unpackEFace(c.EltType).data, unsafe.Add(h.Data, i*int(c.EltSize)))
+		}
 	}
 	h.Len = count
 
